@@ -34,8 +34,8 @@ build_harness() {
   local feat="" tdir=$C/target rf=""
   case $variant in
     plain) ;;
-    tracing) feat="--features tracing" ;;
-    subscriber) feat="--features subscriber" ;;
+    tracing) tdir=$C/target-tracing; feat="--features tracing" ;;
+    subscriber) tdir=$C/target-subscriber; feat="--features subscriber" ;;
     hooked) tdir=$C/target-hooked; rf="--cfg callbag_verif" ;;
   esac
   RUSTFLAGS="$rf" CARGO_TARGET_DIR=$tdir timeout 1800 cargo build --offline $feat > $C/logs/harness_$variant.log 2>&1 \
